@@ -133,7 +133,12 @@ pub fn boundary(after_unwind: bool) {
                     let bad = if tainted && alive { sc != 0 && sc < exp_s } else { sc != exp_s };
                     if bad {
                         let sig = format!("weak-strong-count/{}", if alive { "alive" } else { "dead" });
-                        w.violation(&["C09"], "weak-strong-count", sig, format!("Weak::strong_count() of weak->obj{} is {}, expected {}", t, sc, exp_s), false);
+                        let moved = w.objs[t as usize].moved_out;
+                        if moved {
+                            w.violation(&["C09", "C13"], "weak-strong-count", sig, format!("Weak::strong_count() of weak->obj{} (moved out by try_unwrap) is {}, expected {}", t, sc, exp_s), false);
+                        } else {
+                            w.violation(&["C09"], "weak-strong-count", sig, format!("Weak::strong_count() of weak->obj{} is {}, expected {}", t, sc, exp_s), false);
+                        }
                     }
                 }
             }
@@ -392,7 +397,8 @@ fn counters() {
             }
             if sum != bytes {
                 let sig = format!("allocated-bytes/{}", if bytes > sum { "too-high" } else { "too-low" });
-                w.violation(&["C11"], "allocated-bytes", sig, format!("allocated_bytes() = {} but the live managed allocations total {}", bytes, sum), false);
+                let props: &[&str] = if w.any_panic { &["C11"] } else { &["C11", "C02"] };
+                w.violation(props, "allocated-bytes", sig, format!("allocated_bytes() = {} but the live managed allocations total {}", bytes, sum), false);
                 w.bytes_unknown = true; // report once
             }
         }
